@@ -146,9 +146,11 @@ def gen_extra(tier):
     # patterns that reach the program as bare shell words (the shell has removed the quotes): digits, dashes and
     # column names inside them are text, not arithmetic
     for pat in ('2018*.txt', '2018*', '2018-rep*', '2018-report.txt', '2018-05-notes*', '2018?01-02.log', 'size*', '5*', 'cb23ef45%', '2018%', '2018-%',
-                '2018%.txt', 'a-b*', '0', '2018'):
+                '2018%.txt', 'a-b*', '0', '2018',
+                # wildcards at both ends and between numbers or names: still one pattern, never a product or a difference
+                '*2018*05*', '2018*05*', '%2018%05%', '2018-05-*', '*.2018-05', '*size*5*', '*5', '%5', '2018-*', '*-1', '+ab', '+a?', '+a_', '+5', '2018*-*', 'size*5*'):
         for op in ('=', '!=', 'like', 'notlike', '===', '!==', '=~', '!=~'):
-            if ('%' in pat and op in ('=', '!=')) or (op in ('=~', '!=~') and any(ch in pat for ch in '*?%')):
+            if ('%' in pat and op in ('=', '!=')) or (op in ('=~', '!=~') and any(ch in pat for ch in '*?%+')):
                 continue
             yield {'fam': 'bare-word', 'op': op, 'pat': pat}
     # a regular-expression search root whose segment text is also used as a pattern in WHERE
@@ -228,7 +230,7 @@ def eval_group(env, group, tier):
             if c['fam'] == 'bare-word':
                 bw = env.newdir('c12bw')
                 bnames = ['2018report.txt', '2018-report.txt', '2018-05-notes.md', '2018x01-02.log', '2018', '0', 'size', 'sizes', '5', '55', 'cb23ef45aa',
-                          'a-b.c', '1-1', 'other']
+                          'a-b.c', '1-1', 'other', 'x2018y05z', '2018-05-17.log', 'report.2018-05', 'size5x', 'asize25b', '25', '-1', '+ab', 'ab', '-ab', '+5', '10090']
                 for n_ in bnames:
                     open(os.path.join(bw, n_), 'w').close()
                 argv = ['name', 'from', '.', 'where', 'name', c['op'], c['pat'], 'into', 'list']
